@@ -71,6 +71,7 @@ class PyValidator(Contract):
         T = tconst
         cx.axioms.append(z3.Distinct(*[T(n) for n in self.type_names]))
         NONE_T = cx.const("None").t
+        cx.axioms.append(z3.Not(is_callable(NONE_T)))          # None is not callable
 
         def facts(x):
             """ground instances, for one object x, of the typing facts of the builtin types named by the validators: an object
@@ -135,11 +136,19 @@ class PyValidator(Contract):
 
         def c_convert(what, tn):
             """ctraits.validate_float / validate_complex_number through their C contract: an object of exactly the type is
-            returned as is (no protocol runs); anything else is converted once: a new object of exactly the type, or an error"""
+            returned as is; an instance of a subclass yields a new object of exactly the type with the same number (its C
+            field is read, no protocol runs); anything else is converted once: a new object of exactly the type, or an error"""
+            num = z3.Function(tn + "_val", Val, z3.Float64() if tn == "float" else Val)
+
             def apply(I2, a, kw, st, k):
                 v = as_val(I2.cx, a[0], st)
+
+                def sub(s):
+                    r = I2.cx.fresh("exact_" + tn, Val)
+                    return k(VElem(r), s.assume(type_of(r) == T(tn), num(r) == num(v), *self.facts(r)))
                 return I2.cx.branch(st, type_of(v) == T(tn), lambda s: k(VElem(v), s),
-                                    lambda s: self.protocol_call(I2, s, what, v, k, result_facts=lambda r: [type_of(r) == T(tn)]))
+                                    lambda s: I2.cx.branch(s, inst(v, T(tn)), sub,
+                                                           lambda s2: self.protocol_call(I2, s2, what, v, k, result_facts=lambda r: [type_of(r) == T(tn)])))
             return VFunc("opaque", name="_validate_" + what, apply=apply)
         cx.module_globals["_validate_float"] = c_convert("float", "float")
         cx.module_globals["_validate_complex_number"] = c_convert("complex", "complex")
@@ -179,6 +188,8 @@ class PyValidator(Contract):
         o.is_none = lambda x: x == cx.const("None").t
         o.callable = lambda x: is_callable(x)
         o.carries = lambda r, ev: r == ev.result
+        o.same_number = lambda a, b: z3.Or(*[z3.And(inst(b, tconst(tn)), z3.Function(tn + "_val", Val, z3.Float64() if tn == "float" else Val)(a) ==
+                                                   z3.Function(tn + "_val", Val, z3.Float64() if tn == "float" else Val)(b)) for tn in ("float", "complex")])
         o.equal_bool = lambda a, b: a == b
         o.conv_type_is = lambda ev, tn: z3.BoolVal(getattr(ev, "conv_type", None) == tn)
         o.error_is = lambda ev: z3.BoolVal(kind == "raise" and payload.sym is not None and ev.exc is not None and payload.sym.eq(ev.exc))
@@ -321,7 +332,7 @@ class BaseCallableValidate(PyValidator):
 # validate_trait_float_range (IEEE comparison); BaseRange.int_validate has no compiled counterpart (C01 only)
 # ------------------------------------------------------------------------------------------------------------------
 F64 = z3.Float64()
-float_val = z3.Function("float_val", Val, F64)
+float_val = z3.Function("float_val", Val, F64)     # the same function the conversion model uses
 int_val = z3.Function("int_val", Val, z3.IntSort())
 
 
@@ -363,7 +374,7 @@ class _RangeValidate(PyValidator):
         NONE_T = cx.const("None").t
         conv = S.spec_float(o) if self.numeric == "float" else S.spec_int(o)
         # the conversion clauses that speak of acceptance are conditional on the range test: keep the protocol clauses only
-        keep = [c for c in conv if not any(t in c[0] for t in ("stored-as-is", "accepted-with", "no-rejection-without"))]
+        keep = [c for c in conv if not any(t in c[0] for t in ("stored-as-is", "accepted-with", "no-rejection-without", "subclass-instance"))]
         num = float_val if self.numeric == "float" else int_val
         if self.numeric == "float":
             inr = lambda v: S.in_float_range(num(v), self.low == NONE_T, num(self.low), self.exl, self.high == NONE_T, num(self.high), self.exh)
@@ -376,6 +387,10 @@ class _RangeValidate(PyValidator):
             ("spec:result-lies-in-the-declared-range", z3.Implies(o.accepted, inr(o.result)), {"result": num(o.result)}),
             ("spec:exact-%s-accepted-iff-in-range-and-stored-as-is" % self.numeric, z3.Implies(exact, z3.And(o.accepted == inr(o.value), z3.Implies(o.accepted, o.same(o.result, o.value)))), {"value": num(o.value)}),
             ("spec:out-of-range-is-TraitError", z3.Implies(z3.And(z3.Not(o.accepted), z3.BoolVal(not S._failed(o))), o.trait_error))]
+        if self.numeric == "float":
+            sub = z3.And(o.inst(o.value, "float"), z3.Not(exact))
+            out.append(("spec:subclass-instance-accepted-iff-its-number-is-in-range-and-replaced-by-an-exact-float", z3.Implies(sub, z3.And(
+                z3.BoolVal(not o.conv), o.accepted == inr(o.value), z3.Implies(o.accepted, o.same_number(o.result, o.value))))))
         if converted_ok:
             out.append(("spec:a-converted-value-is-accepted-iff-the-converted-number-is-in-range", z3.Implies(z3.Not(exact), z3.And(
                 o.accepted == inr(o.conv[-1].result), z3.Implies(o.accepted, o.carries(o.result, o.conv[-1]))))))
